@@ -467,6 +467,8 @@ _ROUND7 = {
     "C03": "Empty but non-nil slices under size rules (ge / eq / to / gt): not the zero value, so the rule is evaluated and fires (struct field and single variable); the nil slice of the same type is skipped.",
     "C12": "Inputs are copied deeply before each call (slices, arrays, maps, struct fields) and compared afterwards; slices whose elements are out of order under unique (variable and struct field).",
     "C15": "Messages with '%' (format verbs) in the directed grid, which now meets every entry point (variable, struct, map) with every message shape.",
+    "C13": "A declared type with tagged unexported fields whose names start with a caseless character (underscore, a CJK ideograph) under rules whose functions call Interface(): never validated, never a panic.",
+    "C20": "A type with a blank field and unexported fields whose names start with an underscore or a CJK ideograph: hidden, as for the standard encoder.",
     "C16": "Before one struct call in four: refused calls (nil source, typed nil pointer of the measured object's own type) carrying an unscoped rule set and a rule set for that very type, over its own field names.",
 }
 for _p, _t in _ROUND7.items():
